@@ -164,6 +164,7 @@ var pureExternPrefixes = []string{
 	"(github.com/cometbft/cometbft/", "(*github.com/cometbft/cometbft/", "(*github.com/decred/dcrd/dcrec/secp256k1/v4.", "(*math/big.Int).Bytes", "encoding/binary.Varint", "encoding/binary.Uvarint", "encoding/binary.PutUvarint",
 	"(*github.com/bandprotocol/chain/v3/app.BandApp).AppCodec",
 	"(*github.com/cometbft/cometbft/abci/types.ResponseQuery).",
+	"(github.com/cosmos/cosmos-sdk/types.Context).VoteInfos",
 }
 
 var freshExternPrefixes = []string{
